@@ -223,6 +223,19 @@ theorem apk_scripts_in_control_segment (sha1hex : Bytes → Bytes) (pkginfo : By
   obtain ⟨l1, l2⟩ := ApkCtl.lookup_members sha1hex pkginfo scripts
   exact ⟨Pkg.apkStream_reads sig _ data hraw hlog, l1, l2⟩
 
+/-- non-vacuity, kernel-evaluated on one instance: a control segment with .PKGINFO and a post-install script – the
+    stream reads back, the slot holds the script with mode, time and checksum record, an unconfigured slot is absent -/
+def exScripts : Bytes → Option (Bytes × Nat) :=
+  fun n => if n = b!".post-install" then some (b!"#!/bin/sh" ++ [10], 1700000000) else none
+def exMembers : List Tar.PMember := ApkCtl.members (fun _ => b!"da39a3ee") (b!"pkgname = a" ++ [10]) exScripts
+set_option maxRecDepth 100000 in
+example : Tar.paxRead (Pkg.apkStream none exMembers []) = some exMembers := by decide +kernel
+example : (ApkCtl.lookup b!".pre-install" exMembers).isNone = true := by decide +kernel
+example : (ApkCtl.lookup b!".post-install" exMembers).map (fun m => (m.hdr.mode, m.hdr.mtime, m.body))
+    = some (0o755, 1700000000, b!"#!/bin/sh" ++ [10]) := by decide +kernel
+example : (ApkCtl.lookup b!".post-install" exMembers).map (·.pax) = some [(b!"APK-TOOLS.checksum.SHA1", b!"da39a3ee")] := by
+  decide +kernel
+
 /-- the slot names of the byte-level archive are the documented deb slots of the wiring table (C09's `debSlots`) -/
 example : DebCtl.scriptSlots.map (·.1) = [b!"config", b!"postinst", b!"postrm", b!"preinst", b!"prerm", b!"rules", b!"templates"] := by
   decide
